@@ -220,7 +220,7 @@ class RoundTrip(Base):
         out = []
         n = ctx.n(36, 500) if round == 0 else 20
         for h, fam in header_plan(ctx, n, "rt"):
-            mode = ctx.rng.choice(["find", "find", "fit", "nodistort"]) if has_dist(h) else \
+            mode = ctx.rng.choice(["find", "find", "fit", "nodistort", "find-dflag"]) if has_dist(h) else \
                 ctx.rng.choice(["find", "fit", "nodistort"])
             pts = g.gen_points(ctx.rng, h, ctx.n(10, 16))
             out.append({"header": h, "pts": pts, "mode": mode, "family": fam})
@@ -240,6 +240,7 @@ class RoundTrip(Base):
         w = mk(h)
         fdist = mode != "nodistort"
         kw = {"find": dict(find=True, distort=True), "fit": dict(find=False, distort=True),
+              "find-dflag": dict(find=True, distort=False),      # root finding inverts the full transform whatever `distort`
               "nodistort": dict(find=False, distort=False)}[mode]
         pairs = []
         for x, y in c["pts"]:
@@ -329,13 +330,251 @@ class ScalarArray(Base):
         return "v_close_abs %s %s %s" % (cqlist(a), cqlist(b), cQ(TOL_JAC_SAME))
 
 
-def run_op(w, o):
+# ----------------------------------------------------------------------------
+# input forms (header forms, pixel / sky argument forms, keywords given explicitly as their defaults)
+# ----------------------------------------------------------------------------
+
+class IterHeader:
+    """fitsio-like: iteration over the keys (one of them None, as for blank cards) and item access"""
+
+    def __init__(self, d):
+        self.d = d
+
+    def __iter__(self):
+        return iter([None] + list(self.d.keys()))
+
+    def __getitem__(self, k):
+        return self.d[k]
+
+
+class ItemsHeader:
+    """pyfits-like: only an items() method"""
+
+    def __init__(self, d):
+        self.d = d
+
+    def items(self):
+        return [(None, 1)] + list(self.d.items())
+
+
+def _record(d):
     import numpy as np
-    if o["arr"]:
-        a = np.array([p[0] for p in o["pts"]])
-        b = np.array([p[1] for p in o["pts"]])
+    dt = [(k, "U24" if isinstance(v, str) else ("i8" if isinstance(v, int) else "f8")) for k, v in d.items()]
+    a = np.zeros(1, dtype=dt)
+    for k, v in d.items():
+        a[k] = v
+    return a
+
+
+HFORMS = ["dict", "iter-lower", "iter-upper", "items-upper", "rec1-upper", "rec-void", "recarray", "np64-values",
+          "znaxis-only", "znaxis-wins", "angle-keys", "angle-kwargs", "latpole0", "ctype-lower-padded-nocunit", "int-crpix-crval"]
+
+
+def build(h, hform):
+    """the WCS object of base header h (lower-case dict of python floats / ints / str) given in form hform; every
+    form denotes the same header values"""
+    import numpy as np
+    W = _wcsutil().WCS
+    up = {k.upper(): v for k, v in h.items()}
+    if hform == "dict":
+        return W(dict(h))
+    if hform == "iter-lower":
+        return W(IterHeader(dict(h)))
+    if hform == "iter-upper":
+        return W(IterHeader(up))
+    if hform == "items-upper":
+        return W(ItemsHeader(up))
+    if hform == "rec1-upper":
+        return W(_record(up))
+    if hform == "rec-void":
+        return W(_record(up)[0])
+    if hform == "recarray":
+        return W(_record(h).view(np.recarray))
+    if hform == "np64-values":
+        return W({k: (np.float64(v) if isinstance(v, float) else v) for k, v in h.items()})
+    if hform == "znaxis-only":
+        d = {k: v for k, v in h.items() if not k.startswith("naxis")}
+        d.update(znaxis1=h["naxis1"], znaxis2=h["naxis2"])
+        return W(d)
+    if hform == "znaxis-wins":          # compressed image: NAXIS* describe the binary table, ZNAXIS* the image
+        d = dict(h, znaxis1=h["naxis1"], znaxis2=h["naxis2"])
+        d["naxis1"], d["naxis2"] = 8, 17
+        return W(d)
+    if hform == "angle-keys":
+        return W(dict(h, longpole=180.0, latpole=90.0, theta0=90.0))
+    if hform == "angle-kwargs":
+        return W(dict(h), longpole=180.0, latpole=90.0, theta0=90.0)
+    if hform == "latpole0":             # LATPOLE is irrelevant for a zenithal projection (theta0 = 90)
+        return W(dict(h, longpole=180, latpole=0.0))
+    if hform == "ctype-lower-padded-nocunit":
+        d = {k: v for k, v in h.items() if not k.startswith("cunit")}
+        d["ctype1"] = h["ctype1"].lower() + "  "
+        d["ctype2"] = h["ctype2"].lower() + "  "
+        return W(d)
+    if hform == "int-crpix-crval":      # integer-valued cards parsed as python ints
+        d = dict(h)
+        for k in ("crpix1", "crpix2", "crval1", "crval2"):
+            if float(h[k]) == int(h[k]):
+                d[k] = int(h[k])
+        return W(d)
+    raise ValueError(hform)
+
+
+PFORMS = {
+    "i2s": ["pyfloat", "np64-scalar", "pyint", "npint-scalar", "f4-scalar", "0d", "list", "tuple", "len1", "i4-arr", "i8-arr",
+            "u2-arr", "f4-arr", "bigendian", "strided", "reversed", "readonly", "long4097", "long65537", "empty", "kw-explicit"],
+    "s2i": ["pyfloat", "np64-scalar", "len1", "f8-arr", "bigendian", "strided", "reversed", "readonly", "long", "empty",
+            "kw-explicit"],
+    "jac": ["pyfloat", "pyint", "i8-arr", "f8-arr", "bigendian", "strided", "readonly", "len1", "kw-explicit"],
+}
+
+
+def shape_args(pform, xs, ys):
+    """-> (a, b, scalar: bool) the two positional arguments in the requested form (values unchanged)"""
+    import numpy as np
+    if pform in ("pyfloat", "kw-explicit") and len(xs) == 1:
+        return float(xs[0]), float(ys[0]), True
+    if pform == "np64-scalar":
+        return np.float64(xs[0]), np.float64(ys[0]), True
+    if pform == "pyint":
+        return int(xs[0]), int(ys[0]), True
+    if pform == "npint-scalar":
+        return np.int64(int(xs[0])), np.int32(int(ys[0])), True
+    if pform == "f4-scalar":
+        return np.float32(xs[0]), np.float32(ys[0]), True
+    if pform == "0d":
+        return np.array(xs[0]), np.array(ys[0]), True
+    if pform == "list":
+        return list(xs), list(ys), False
+    if pform == "tuple":
+        return tuple(xs), tuple(ys), False
+    dt = {"i4-arr": "i4", "i8-arr": "i8", "u2-arr": "u2", "f4-arr": "f4", "bigendian": ">f8"}.get(pform, "f8")
+    a, b = np.array(xs, dtype=dt), np.array(ys, dtype=dt)
+    if pform == "strided":
+        aa, bb = np.zeros(2 * len(xs) + 1), np.zeros((len(ys), 3))
+        aa[1::2] = xs
+        bb[:, 1] = ys
+        a, b = aa[1::2], bb[:, 1]
+    elif pform == "reversed":
+        a, b = np.array(xs[::-1])[::-1], np.array(ys[::-1])[::-1]
+    elif pform == "readonly":
+        a.flags.writeable = False
+        b.flags.writeable = False
+    return a, b, False
+
+
+class Forms(Base):
+    """every accepted way of handing over the same header and the same positions gives the same numbers as the plain
+    form (lower-case dict; python-float scalar calls): compared to the accuracies the statement names"""
+    name = "forms"
+
+    def cases(self, ctx, round=0):
+        r = ctx.rng
+        out = []
+        kinds = ["tan", "tpv", "sip", "tpv-sparse", "sip-noinv", "tan-pv"]
+        # header forms x operations
+        hf = list(HFORMS[1:])
+        r.shuffle(hf)
+        for i, hform in enumerate(hf if round == 0 else hf[:4]):
+            for rep in range(ctx.n(1, 6)):
+                kind = kinds[(i + rep) % len(kinds)]
+                h = g.gen_header(r, kind, r.choice(g.CRVAL_FAMILIES), "inside")
+                if hform == "int-crpix-crval":
+                    for k in ("crpix1", "crpix2", "crval1"):
+                        h[k] = float(math.floor(h[k] + 0.5))
+                    h["crval2"] = float(max(-89, min(89, math.floor(h["crval2"] + 0.5))))
+                op = r.choice(["i2s", "i2s", "s2i", "jac"])
+                out.append({"header": h, "hform": hform, "pform": "f8-arr", "op": op, "pts": g.gen_points(r, h, 4, special=False),
+                            "distort": True, "find": r.random() < 0.5, "family": "%s/hform-%s/%s" % (kind, hform, op)})
+        # argument forms x operations
+        for op, forms in sorted(PFORMS.items()):
+            fs = list(forms)
+            for i, pform in enumerate(fs):
+                for rep in range(ctx.n(1, 5)):
+                    kind = kinds[(i + rep + len(op)) % len(kinds)]
+                    if pform.startswith("long"):
+                        kind = ["tpv", "sip"][(i + rep) % 2]       # the per-element polynomial loops
+                    h = g.gen_header(r, kind, r.choice(g.CRVAL_FAMILIES), r.choice(["inside", "inside", "outside"]))
+                    n = 1 if pform in ("pyfloat", "np64-scalar", "pyint", "npint-scalar", "f4-scalar", "0d", "len1", "kw-explicit") else 5
+                    if pform.startswith("long"):
+                        n = {"long4097": 4097, "long65537": 65537}.get(pform, 257 if has_dist(h) else 4097)
+                    if pform == "empty":
+                        n = 0
+                    pts = [[r.uniform(1.0, h["naxis1"]), r.uniform(1.0, h["naxis2"])] for _ in range(n)]
+                    if pform in ("pyint", "npint-scalar", "i4-arr", "i8-arr", "u2-arr"):
+                        pts = [[float(int(p[0])), float(int(p[1]))] for p in pts]
+                    if pform in ("f4-scalar", "f4-arr"):
+                        import numpy as np
+                        pts = [[float(np.float32(p[0])), float(np.float32(p[1]))] for p in pts]
+                    out.append({"header": h, "hform": "dict", "pform": pform, "op": op, "pts": pts,
+                                "distort": r.random() < 0.8, "find": r.random() < 0.5,
+                                "family": "%s/pform-%s/%s" % (kind, pform, op)})
+        return out
+
+    @guarded
+    def impl(self, c):
+        import numpy as np
+        h, op = c["header"], c["op"]
+        pts = c["pts"]
+        w0 = mk(h)
+        if op == "s2i":     # sky positions of the pixels (plain calls); these are the inputs of both sides
+            pts = [[float(t) for t in w0.image2sky(p[0], p[1])] for p in pts]
+        xs, ys = [p[0] for p in pts], [p[1] for p in pts]
+        idx = list(range(len(pts))) if len(pts) <= 16 else sorted(set([0, len(pts) - 1] + [(i * 7919) % len(pts) for i in range(12)]))
+        kw = {"distort": c["distort"]}
+        if op == "s2i":
+            kw["find"] = c["find"]
+        fn = {"i2s": "image2sky", "s2i": "sky2image", "jac": "get_jacobian"}[op]
+        wb = mk(h)
+        base = [flat(getattr(wb, fn)(float(xs[i]), float(ys[i]), **kw)) for i in idx]
+        wv = build(h, c["hform"])
+        a, b, scalar = shape_args(c["pform"], xs, ys)
+        if c["pform"] == "kw-explicit":
+            # keywords omitted on one side, given explicitly as their defaults on the other
+            base = [flat(getattr(wb, fn)(float(xs[i]), float(ys[i]))) for i in idx]
+            kw = {"i2s": dict(distort=True), "s2i": dict(distort=True, find=True, xtol=1e-8), "jac": dict(distort=True, step=1.0)}[op]
+        res = getattr(wv, fn)(a, b, **kw)
+        cols = [np.atleast_1d(np.asarray(t, dtype="f8")).ravel() for t in res]
+        n = 1 if scalar else len(pts)
+        if any(len(col) != n for col in cols):
+            return {"err": "EShape", "msg": "output lengths %s for %d input position(s)" % ([len(col) for col in cols], n)}
+        var = [[float(col[i]) for col in cols] for i in idx]
+        return {"base": base, "variant": var, "n": n}
+
+    def term(self, c, out):
+        if "err" in out:
+            return FAIL
+        a = [t for row in out["base"] for t in row]
+        b = [t for row in out["variant"] for t in row]
+        if not (finite(a) and finite(b)) or len(a) != len(b):
+            return FAIL
+        if c["op"] == "i2s":
+            pr = lambda rows: "[%s]" % "; ".join("(%s, %s)" % (cQ(l), cQ(t)) for l, t in rows)   # noqa
+            return "v_sky_same %s %s %s" % (pr(out["base"]), pr(out["variant"]), cQ(TOL_SKY_F))
+        if c["op"] == "s2i":
+            return "v_close_abs %s %s %s" % (cqlist(a), cqlist(b), cQ(TOL_PX))
+        return "v_close_abs %s %s %s" % (cqlist(a), cqlist(b), cQ(TOL_JAC_SAME))
+
+    def nontrivial(self, c, out):
+        return "err" not in out and len(c["pts"]) > 0
+
+
+def run_op(w, o, keep=None):
+    """one operation of a history; with keep (a dict) the argument arrays are created once per operation index and
+    handed over again on a repetition, so that an implementation that scribbles on its inputs is seen"""
+    import numpy as np
+    if o["op"] == "inv":
+        return flat(w.InvertDistortion())
+    if keep is not None and o.get("_k") in keep:
+        a, b = keep[o["_k"]]
     else:
-        a, b = o["pts"][0]
+        if o["arr"]:
+            a = np.array([p[0] for p in o["pts"]])
+            b = np.array([p[1] for p in o["pts"]])
+        else:
+            a, b = o["pts"][0]
+        if keep is not None and "_k" in o:
+            keep[o["_k"]] = (a, b)
     if o["op"] == "i2s":
         return flat(w.image2sky(a, b, distort=o["distort"]))
     if o["op"] == "s2i":
@@ -352,12 +591,23 @@ class History(Base):
         n = ctx.n(30, 400) if round == 0 else 20
         for h, fam in header_plan(ctx, n, "hi"):
             out.append({"header": h, "ops": g.gen_history(ctx.rng, h, 12), "family": fam})
+        # every kind of call once, in a random order, then the first two again (with the very same argument arrays)
+        for h, fam in header_plan(ctx, ctx.n(12, 150) if round == 0 else 8, "ho"):
+            out.append({"header": h, "ops": g.gen_history_orders(ctx.rng, h), "family": fam.split("/")[0] + "/orders/" + fam.split("/")[2],
+                        "repeat_first": 2})
         return out
 
     @guarded
     def impl(self, c):
         w = mk(c["header"])
-        hist = [run_op(w, o) for o in c["ops"]]
+        ops = [dict(o) for o in c["ops"]]
+        k = c.get("repeat_first", 0)
+        for i, o in enumerate(ops):
+            o["_k"] = i
+        for j in range(k):                      # the repetitions reuse the argument arrays of the first k operations
+            ops[len(ops) - k + j]["_k"] = j
+        keep = {}
+        hist = [run_op(w, o, keep) for o in ops]
         fresh = [run_op(mk(c["header"]), o) for o in c["ops"]]
         return {"history": hist, "fresh": fresh}
 
@@ -530,7 +780,7 @@ def jac_items(ctx, n):
             pt = pts[0]
         step = ctx.rng.choice([1.0, 1.0, 0.5, 2.0])
         try:
-            it = jac_item(h, pt, ctx.rng.random() < 0.7, step, fam)
+            it = jac_item(h, pt, i % 4 != 1, step, fam)
         except Exception as e:      # noqa
             ctx.violation("get_jacobian raises: %s: %s" % (type(e).__name__, str(e)[:200]),
                           {"kind": "failing-input", "entry": "jac", "case": {"header": h, "pt": pt}, "class": None})
@@ -660,7 +910,7 @@ def run(ctx, replay=None):
             return
     fw = Forward()
     sa = ScalarArray()
-    entries = [fw, RoundTrip(), sa, History(), Cdinv()]
+    entries = [fw, RoundTrip(), sa, History(), Cdinv(), Forms()]
     # 3. replay of a certificate
     if replay is not None and replay.get("entry") in ("cert", "jac"):
         it = dict(replay["case"])
